@@ -16,7 +16,10 @@ RULE = ("every case encodes with SetTrackEncodedProperties(true) through the Enc
         "degenerate and duplicate faces, isolated points, random sub-patches of small grids (many topology-split "
         "symbols, position-only and single-connectivity decoding), tori / genus-2 surfaces; (c) meshes whose points are "
         "NOT deduplicated (a vertex referenced through several point ids with identical value indices); the replays of the "
-        "two defects this check found (repaired by 85f04a5 and 49d6567) run first as regression cases.")
+        "two defects this check found (repaired by 85f04a5 and 49d6567) run first as regression cases."
+        ' (d) ONE draco::Encoder object used for two geometries in a row (op encdech: mesh then point cloud, '
+        'point cloud then mesh, ...): the counts reported after the second encode are those of the second '
+        'geometry; a point cloud must report 0 faces.')
 THEOREM_BACKED = ('DracoProps.C09: seq_counts_mesh_connectivity / seq_counts_mesh_stream / seq_counts_pc_stream (a 2.2 '
                   'header + raw-index connectivity / point count followed by any bytes decodes to exactly the counts the '
                   'sequential encoders report), seq_counts (every accepted sequential stream of every bitstream version: '
